@@ -1,5 +1,5 @@
 #!/usr/bin/env python3
-"""tools/seedrun.py [--only <substr>] [--props C01,C02|all|own]
+"""tools/seedrun.py [--only <substr>] [--props C01,C02|all|own] [-j N]
 
 Runs the registered checks against every seeded change under /verif/seeded/<name>/patch.diff.
 Each patch is applied to a scratch copy of /repo under /verif/.work (never /repo itself; the checks
@@ -67,8 +67,18 @@ def main():
     rp = os.path.join(VERIF, "seeded", "RESULTS.json")
     if os.path.isfile(rp):
         results = json.load(open(rp))
-    try:
-        for n in names:
+    jobs = int(args[args.index("-j") + 1]) if "-j" in args else 1
+    from concurrent.futures import ThreadPoolExecutor
+    import threading
+    lock = threading.Lock()
+
+    def one(n):
+        with lock:
+            pass
+        return _one(n)
+
+    def _one(n):
+        if True:
             meta = json.load(open(os.path.join(VERIF, "seeded", n, "meta.json")))
             own = meta["property"]
             if meta.get("expect") == "silent" and meta.get("props"):
@@ -79,13 +89,14 @@ def main():
                 r["own_claimed"] = True
                 r["caught_by_own"] = False
                 r["false_alarm"] = bool(r["flagged"])
-                results[n] = r
-                print("%-14s NEUTRAL %-10s flagged=%s%s" % (n, "FALSE-ALARM" if r["flagged"] else "silent-ok", ",".join(r["flagged"]) or "-", ("  ERROR " + r["error"][:200]) if r.get("error") else ""))
-                for pk, ks in r["keys"].items():
-                    for k in ks[:3]:
-                        print("      %s" % k[:220])
-                sys.stdout.flush()
-                continue
+                with lock:
+                    results[n] = r
+                    print("%-14s NEUTRAL %-10s flagged=%s%s" % (n, "FALSE-ALARM" if r["flagged"] else "silent-ok", ",".join(r["flagged"]) or "-", ("  ERROR " + r["error"][:200]) if r.get("error") else ""))
+                    for pk, ks in r["keys"].items():
+                        for k in ks[:3]:
+                            print("      %s" % k[:220])
+                    sys.stdout.flush()
+                return
             if mode == "own":
                 props = [own] if own in cl else []
             elif mode == "all":
@@ -96,9 +107,14 @@ def main():
             r["own"] = own
             r["own_claimed"] = own in cl
             r["caught_by_own"] = own in r["flagged"]
-            results[n] = r
-            print("%-8s own=%s %-7s flagged=%s%s" % (n, own, "CAUGHT" if r["caught_by_own"] else ("missed" if own in cl else "n/a"), ",".join(r["flagged"]) or "-", ("  ERROR " + r["error"][:200]) if r.get("error") else ""))
-            sys.stdout.flush()
+            with lock:
+                results[n] = r
+                print("%-8s own=%s %-7s flagged=%s%s" % (n, own, "CAUGHT" if r["caught_by_own"] else ("missed" if own in cl else "n/a"), ",".join(r["flagged"]) or "-", ("  ERROR " + r["error"][:200]) if r.get("error") else ""))
+                sys.stdout.flush()
+
+    try:
+        with ThreadPoolExecutor(max_workers=jobs) as ex:
+            list(ex.map(one, names))
     finally:
         for f in os.listdir(keep):
             shutil.copy2(os.path.join(keep, f), ev)
